@@ -247,6 +247,41 @@ def random_residue(rng, resname, nmax=5, with_vs=True, with_angles=True):
     return res
 
 
+LARGE_NAMES = ["%s%d" % (c, i) for c in "LMN" for i in range(1, 10)]      # 27 further atom names for large residues
+
+
+def large_residue(rng, resname, sizes=(16, 17, 20, 24)):
+    """a connected residue of >= 16 atoms with pairwise distinct names (chain with branches or random tree; bonds only, so that any
+    geometry is feasible): the size class in which a key function that looks at the number of atoms could change its mind"""
+    n = int(rng.choice(list(sizes)))
+    names = [str(x) for x in rng.permutation(NAMES + LARGE_NAMES)[:n]]
+    if rng.random() < 0.5:
+        back = max(2, (2 * n) // 3)
+        edges = [(i - 1, i) for i in range(1, back)] + [(int(rng.integers(0, back)), i) for i in range(back, n)]
+    else:
+        edges = [(int(rng.integers(max(0, i - 4), i)), i) for i in range(1, n)]
+    bonds = [[names[a], names[b], round(float(rng.uniform(0.25, 0.4)), 3)] for a, b in edges]
+    return {"resname": resname, "names": names, "atypes": ["P"] * n, "bonds": bonds, "constraints": [], "angles": [], "impropers": [], "vs": []}
+
+
+def template_size(coords, radii, near=1e-9):
+    """size of a residue from the template a molecule holds, written down independently of the code: the radius of gyration of the
+    atoms pushed outwards from the centre of geometry by their own radius (sigma of the self-interaction); an atom on the centre
+    stays there; if all do, the largest radius.  -> (size, conclusive): the rule is discontinuous for an atom ON the centre, so a
+    template of several atoms with one of them closer than `near` to the centre gives no verdict."""
+    x = np.array([np.asarray(v, float) for v in coords])
+    r = np.asarray(radii, float)
+    d = x - x.mean(axis=0)
+    nrm = np.linalg.norm(d, axis=1)
+    conclusive = len(x) == 1 or not bool(np.any(nrm < near))
+    out = np.zeros_like(d)
+    far = nrm > 1e-18
+    out[far] = d[far] + d[far] / nrm[far, None] * r[far, None]
+    if not np.any(out):
+        return float(r.max()), conclusive
+    return float(np.sqrt(((out - out.mean(axis=0)) ** 2).sum(axis=1).mean())), conclusive
+
+
 def molecule_from_residues(name, residues, tree_edges, rng=None):
     """moltype description from residue definitions (list, one per residue node, resid = index + 1) and residue-level edges
     [(r, s), ...] (0-based); each residue edge becomes one bond between a real (non virtual-site) atom of each side."""
